@@ -108,7 +108,9 @@ def scanner_job(N, ascii_only):
                 got = (int(mm.group(1)), int(mm.group(2)))
                 if ref.kind in ('lex', 'parse') and ref.loc is not None and got != tuple(ref.loc):
                     # the newline pseudo-token: both (line, len+1) and (line+1, 0) are accepted
-                    if ref.kind == 'parse' and got == (ref.loc[0] + 1, 0): continue
+                    lines_ = txt.split('\n')
+                    at_lf = ref.loc[0] - 1 < len(lines_) - 1 and ref.loc[1] == len(lines_[ref.loc[0] - 1]) + 1
+                    if at_lf and got == (ref.loc[0] + 1, 0): continue
                     res['violations'].append({'aspect': 'position', 'role': 'syntax-error-position', 'what': 'diagnostic at %s, offending %s at %s: %r' % (got, ref.kind, ref.loc, o['err'][:120]), 'script': w, 'ext': 'sd'})
     return {'name': name, 'path_fn': path_fn, 'post': post}
 
